@@ -8,7 +8,26 @@ BUILD = ("cd /verif/checker && GOFLAGS=-mod=vendor GOPROXY=off GOSUMDB=off GOTOO
 
 # id -> (built?, technique, level text, level note, design ref)
 P = {
- "C01": (False, "", "", "", "§4 C01"),
+ "C01": (True,
+   "stream-shape calculus: anchors of all join operands in every indicator Compute, symbolic in the periods, vs. a frozen intrinsic-offset table",
+   "Static analysis of ONE structural necessary condition of C01, not of the numbers: at every element-wise combination of streams inside an indicator (about 100 joins) the operands are proved to refer to the same input position for all admissible configurations, or to differ by exactly the offset the documented formula prescribes (8 tabled joins, compared as symbolic expressions). A skewed join evaluates the formula on values of different days for every non-constant series. Operators, constants, window contents, seeds and rounding are not decided.",
+   "Trusts go/types, the intrinsic-offset table, Γ, the declared IdlePeriod contracts of sub-indicators (C02's obligation) and the Fourier–Motzkin procedure. Four genuine misalignments (Apo, Dema, Emv, Fi) are pinned by the unedited tests and listed as known findings.",
+   "§4 C01"),
+ "C04": (True,
+   "stream-shape calculus: consumption lead of every indicator output and action stream proved <= its label; closure-purity lint",
+   "Static analysis, sufficient for the stated clause: in a stage doing only blocking receives and sends an output cannot depend on inputs consumed after it was sent, so lead <= label for ALL configurations (label = declared warm-up for indicators, 0 for actions) excludes look-ahead, provided stage closures read only their arguments, per-call state and receiver configuration (checked: no channel operation, no package-level variable in any closure run by a stage).",
+   "Trusts go/types, the Kahn-stage argument, contracts of sub-indicators and wrapped strategies, Γ, Fourier–Motzkin. Prefix equality of runs is a consequence and is not re-checked numerically.",
+   "§4 C04"),
+ "C05": (True,
+   "stream-shape calculus on every strategy Compute (length, anchor, Hold-fill prefix, fill-taint), registry coverage, action-constant lint",
+   "Static analysis. For all 40 strategy types: len(actions) = max(n, warm-up) (so exactly n beyond the warm-up and never fewer than n), anchor exactly 0, the final prefix is strategy.Hold and covers every element computed from another Shift's fill value, for ALL admissible configurations and n >= 0; compounds/decorators against the Strategy contract; every registry entry's type was analysed; Action values originate only from the three constants.",
+   "Trusts go/types, the Strategy interface contract for wrapped strategies, sub-indicator contracts, Γ, Fourier–Motzkin. Alligator and SMMA strategies emit n+1 actions one day late (pinned by their tests): known findings.",
+   "§4 C05"),
+ "C14": (True,
+   "stream-shape calculus on every strategy Report: each column stream vs. the date stream (length and anchor), symbolic in the periods",
+   "Static analysis. The report template zips the date stream with one Value() per column per row; for all 40 Report methods every column found in the constructed helper.Report is proved to have exactly the date stream's length and anchor for all admissible configurations and every n beyond the warm-up.",
+   "Trusts go/types, the template's zip semantics (its shape is re-checked on every run), contracts (C02, C05), Γ, Fourier–Motzkin. The Alligator/SMMA report columns inherit the pinned C05 defect (known findings); the APO column was repaired (fix: d5cfb51).",
+   "§4 C14"),
  "C02": (True,
    "stream-shape calculus (abstract interpretation of pipeline builders over the type-checked AST, periods and n symbolic) + exact linear entailment",
    "Static analysis. For every indicator Compute the number of values on each output and the anchor of its first value are derived from the current source as piecewise-linear expressions of the input length n and the configuration symbols, and proved equal to max(0, n - IdlePeriod()) / IdlePeriod() for ALL n >= 0 and ALL admissible configurations; unchecked receives whose value is sent on are proved to find an element. This is the quantifier the tests cannot reach (they pin one configuration and n = 251). Values are not decided.",
